@@ -41,12 +41,13 @@ TEXT = {
  "C16": ("model_checking", "7 C16", "Bounded: every sequence of K operations over {Write(0), Write(5), Write(>buffer), Flush, Close, Reset} (symbolic, solver-split): error-ness equals compress/flate's automaton (checked against the real stdlib Writer by the engine), no panic, bytes up to the first Close are a complete stream.",
          "K=2..4; constructors' level validation is covered by the C06 harnesses (level-accept)"),
  "C17": ("other", "7 C17", checks.CHECKS["C17"]["explanation"], "assembly footprints and the scheduler are outside; see explanation"),
+ "C18": ("model_checking", "7 C18 / 3", "Decode direction, bounded: the same symbolic window (inside a block followed by >= 40 concrete bytes, so that the assembly fast path is entered) is decoded at acceleration level 0 and at level 3, where decodeHuffmanAsmArchV3 is executed symbolically from the current decode_amd64.s by the engine's assembly executor (memory operands resolved against the Go struct layout); bytes, outcome kind and source position must agree. Compression-side assembly is outside.",
+         "asmsym covers the 33 mnemonics of decode_amd64.s; flags modelled as last compare/result; contexts: fixed block at stream start and after 300 bytes, dynamic templates 2 and 5; N=1..2"),
  "C19": ("model_checking", "7 C19", "Bounded: one real lz77 iteration from an arbitrary state gives D <= historySize for historySize 4096, 32768 (and 8), including wrapped 16-bit positions; distance symbol+extra reconstructs D for every D; 4K-window Writers in operation sequences never exceed 4096 (reference inflater's max distance).",
          "assembly match finders are outside (they are not executed under noasmtest)"),
 }
 
 NA = {
- "C18": "decode_amd64.s needs a symbolic executor for Plan-9 amd64 assembly (asmsym, DESIGN.md section 3), which is not built; the Go paths of both build configurations are covered by C02/C03; the AVX2/AVX-512 encoders and LZ77 assembly are out of reach of the encoder",
  "C20": "whole-stream size bounds need a whole-pipeline / 64Ki-iteration LZ77 symbolic run (DESIGN.md 2.3); no solver-decidable condition implied by the property was found that would not also alarm on code for which the property holds",
 }
 
